@@ -61,6 +61,24 @@ func evalCallsOn(m *Model, fn *ssa.Function, suffix string) []*ssa.Call {
 	return out
 }
 
+// evalCallsOnInlined: like evalCallsOn, also through same-package helpers the function hands the node field to
+// (the helper's parameter resolved to the field load at the call site).
+func evalCallsOnInlined(m *Model, fn *ssa.Function, suffix string) []*ssa.Call {
+	var out []*ssa.Call
+	seen := map[*ssa.Call]bool{}
+	m.walkInlined(fn, 2, func(in ssa.Instruction, resolve func(ssa.Value) ssa.Value, _ int) {
+		c, ok := in.(*ssa.Call)
+		if !ok || !isEvalCall(m, c) || len(c.Call.Args) < 2 || seen[c] {
+			return
+		}
+		if strings.HasSuffix(fieldPathOf(resolve(stripIface(c.Call.Args[1]))), suffix) || strings.HasSuffix(fieldPathOf(c.Call.Args[1]), suffix) {
+			seen[c] = true
+			out = append(out, c)
+		}
+	})
+	return out
+}
+
 func staticCalleeNamed(c *ssa.Call, pkg, name string) bool {
 	sc := c.Call.StaticCallee()
 	return sc != nil && canonFnName(sc) == name && inPkg(sc, pkg)
@@ -292,7 +310,7 @@ func (m *Model) RunTruthUsers(s *Sink, rule string) {
 			s.Undecided(rule, key, "-", "%s not found (anchor of C02/C03)", st.fn)
 			continue
 		}
-		calls := evalCallsOn(m, fn, st.field)
+		calls := evalCallsOnInlined(m, fn, st.field)
 		if len(calls) == 0 {
 			s.Undecided(rule, key, m.Pos(fn.Pos()), "no Eval(node%s, ...) call found in %s", st.field, fnKey(fn))
 			continue
